@@ -313,6 +313,22 @@ fn parse_txt_payload(payload: &str) -> Result<Vec<ScionIpAddr>, TxtParseError> {
     Ok(addresses)
 }
 
+/// Verification hooks (feature `verif-hooks`): the private parsing functions, unchanged.
+#[cfg(feature = "verif-hooks")]
+pub mod verif {
+    use sciparse::address::ip_addr::ScionIpAddr;
+
+    /// [`super::parse_txt_payload`]; the error is rendered with `Display`.
+    pub fn parse_txt_payload(payload: &str) -> Result<Vec<ScionIpAddr>, String> {
+        super::parse_txt_payload(payload).map_err(|e| e.to_string())
+    }
+
+    /// [`super::resolve_txt_records_with_invalid`] with no previously invalid entries.
+    pub fn resolve_txt_records(domain: &str, records: Vec<String>) -> Result<Vec<ScionIpAddr>, String> {
+        super::resolve_txt_records_with_invalid(domain, records, Vec::new()).map_err(|e| e.to_string())
+    }
+}
+
 fn txt_record_to_string(txt: &TXT) -> Result<String, InvalidEntry> {
     let bytes: Vec<u8> = txt
         .txt_data()
